@@ -77,6 +77,8 @@ def build(mods):
 
     def set_substring_spec(b, m, l, v):
         v = c2i(v)
+        if isinstance(m, int) and isinstance(l, int) and m >= l >= 0:
+            return ((b >> (m + 1)) << (m + 1)) | (v << l) | uint(b, l)
         return b - (bits_sym(b, m, l) << l) + (v << l)
 
     def bits_sym(b, m, l):
